@@ -7,7 +7,7 @@ EXTRACT = "Extract/C11x.vo"
 WORK = os.path.join(vlib.CACHE, "c11")
 FMT = "harness/src/bin/c11.rs header: <id> : <container bytes in hex> : observations"
 DEC = {"0": "Ok", "1": "InvalidMagic", "2": "UnexpectedEof", "3": "InvalidHeader", "4": "SectionAlignment", "5": "InvalidSectionTable", "6": "InvalidChecksum",
-       "7": "UnsupportedVersion", "8": "SectionOutOfBounds", "9": "SectionOverlap", "10": "InvalidSection", "11": "other error", "20": "PANIC", "21": "ABORT (process died)"}
+       "7": "UnsupportedVersion", "8": "SectionOutOfBounds", "9": "SectionOverlap", "10": "InvalidSection", "11": "other error", "20": "PANIC", "21": "ABORT (process died)", "22": "COMPILE-ERROR"}
 
 
 def run_shard(harness, k, n, sd, cases_file=None):
@@ -30,6 +30,12 @@ def describe(r):
     dec = o[1]; nsec = int(o[2]); rest = o[3 + 2 * nsec:]
     reenc, valid, meta, apply_ = rest[:4]
     what = []
+    if dec == "22":
+        try:
+            src = bytes.fromhex(r["line"].split(" : ")[1]).decode("utf-8", "replace")
+        except ValueError:
+            src = ""
+        what.append("the compiler failed to emit a container for a generated well-typed program (its own validation of the emitted module, or code generation, reported an error); source: " + src[:1500])
     if dec in ("20", "21"): what.append("decode / validate / apply of a %d-byte container ended in %s" % (len(r["line"].split(" : ")[1]) // 2, DEC[dec]))
     for name, v in (("encode/decode round trip", reenc), ("validate", valid), ("metadata", meta), ("apply_bytecode_bytes", apply_)):
         if v == "2": what.append("%s panicked" % name)
